@@ -70,8 +70,8 @@ FIT_TIMEOUT_S = 20       # a fit takes < 1 s; only a non-terminating loop gets h
 FIT_TIMEOUT_AFTER_FIRST_S = 3
 MAX_TIMEOUTS_PER_TYPE = 2
 _TIMEOUTS = {}
-MODES = ('plain', 'swap', 'cyclic', 'small', 'discrete', 'neardup', 'dup', 'indep', 'zero', 'ties')
-MODE_W = (5, 5, 3, 4, 3, 2, 1, 2, 5, 6)
+MODES = ('plain', 'swap', 'cyclic', 'small', 'discrete', 'neardup', 'dup', 'indep', 'zero', 'ties', 'neareq')
+MODE_W = (5, 5, 3, 4, 3, 2, 1, 2, 5, 6, 3)
 TYPES = ('center', 'direct', 'regular')
 
 
@@ -140,8 +140,119 @@ def tied_columns(rng, rs, Z):
     return Z
 
 
+# ----------------------------------------------------------------------------- near-equal |tau| tables
+_NEAREQ = None
+
+
+def _neareq_candidates():
+    """(n, g, S_ac, S_bc): a, c untied ranks of n rows, b with one group of g tied values; with these
+    concordance sums tau_b(a,c) = S_ac/n0 and tau_b(b,c) = S_bc/sqrt(n0 (n0 - g(g-1)/2)) differ by 1e-9..5e-8 and
+    become equal or swap order when rounded to float32."""
+    global _NEAREQ
+    if _NEAREQ is None:
+        import math
+        out = []
+        for g in (3, 4, 5):
+            tb = g * (g - 1) // 2
+            for n in range(120, 241):
+                n0 = n * (n - 1) // 2
+                for dl in range(1, tb):
+                    tgt = 2 * dl * n0 / tb
+                    if tgt > 0.85 * n0:
+                        continue
+                    for sa in range(int(tgt) - 30, int(tgt) + 31):
+                        if (sa - n0) % 2:
+                            continue
+                        for sb in range(sa - 2 * dl - 2, sa + 1):
+                            if (sb - (n0 - tb)) % 2:
+                                continue
+                            t1, t2 = sa / n0, sb / math.sqrt(n0 * (n0 - tb))
+                            if 1e-9 < abs(t1 - t2) < 5e-8:
+                                f1, f2 = np.float32(t1), np.float32(t2)
+                                if f1 == f2 or (f1 < f2) != (t1 < t2):
+                                    out.append((n, g, sa, sb))
+        _NEAREQ = out
+    return _NEAREQ
+
+
+def _conc_sum(x):
+    """con - dis of x against the position order."""
+    n = len(x)
+    return int((np.sign(np.subtract.outer(x, x)) * np.sign(np.subtract.outer(np.arange(n), np.arange(n)))).sum() // 2)
+
+
+def _value_swaps(x, rng, target, k=0):
+    """x: ranks by position (the position order plays the third column c).  Exchanging the positions of two
+    consecutive untied values changes con - dis against c by exactly 2 (and tau with any other column by at most
+    2/n0): first k random such moves, then moves towards con - dis = target."""
+    x = x.copy()
+    vals, counts = np.unique(x, return_counts=True)
+    ok = [i for i in range(len(vals) - 1) if counts[i] == 1 and counts[i + 1] == 1]
+    pos = {int(v): int(np.where(x == v)[0][0]) for v, cn in zip(vals, counts) if cn == 1}
+    s_, done = _conc_sum(x), 0
+    for _ in range(5_000_000):
+        if s_ == target and done >= k:
+            return x
+        i = rng.choice(ok)
+        u, w = int(vals[i]), int(vals[i + 1])
+        p, q = pos[u], pos[w]
+        conc = p < q
+        if done >= k and (s_ > target) != conc:
+            continue
+        x[p], x[q] = w, u
+        pos[u], pos[w] = q, p
+        s_ += -2 if conc else 2
+        done += 1
+    raise RuntimeError('near-equal table: target concordance not reached')
+
+
+def near_equal_columns(rng):
+    """Three rank columns a, b, c: tau_b(a,b) is the strongest dependence, and |tau_b(a,c)| and |tau_b(b,c)| - the
+    two candidates for attaching c in Prim's algorithm - differ by 1e-9..6e-8 (verified with scipy.stats.kendalltau),
+    a difference that float32 cannot see.  Equal concordance counts up to a few units; the tie group in b makes the
+    tau-b denominators differ slightly."""
+    import scipy.stats
+    for _ in range(40):
+        n, g, sa, sb = rng.choice(_neareq_candidates())
+        n0 = n * (n - 1) // 2
+        rs = np.random.RandomState(rng.getrandbits(32))
+        z = np.arange(n) / n + rs.randn(n) * 0.35 * (1 - sa / n0)
+        a = _value_swaps(np.argsort(np.argsort(z, kind='stable'), kind='stable'), rng, sa)
+        b = a.copy()
+        v = rng.randrange(n // 4, 3 * n // 4)
+        b[(b >= v) & (b < v + g)] = v
+        goal = rng.uniform(min(0.9, sa / n0 + 0.08), 0.93)
+        b = _value_swaps(b, rng, sb, k=int(n0 * (1 - goal) * 1.2))
+        a, b, c = a.astype(float), b.astype(float), np.arange(n).astype(float)
+        tac, tbc, tab = (scipy.stats.kendalltau(a, c)[0], scipy.stats.kendalltau(b, c)[0],
+                         scipy.stats.kendalltau(a, b)[0])
+        f1, f2 = np.float32(tac), np.float32(tbc)
+        if 0 < abs(tac - tbc) < 6e-8 and abs(tac - tbc) > 1e-9 and tab > max(tac, tbc) + 0.02 and \
+                (f1 == f2 or (f1 < f2) != (tac < tbc)):
+            return a, b, c
+    raise RuntimeError('near-equal table: construction failed')
+
+
+def near_equal_tables(rng, d=3):
+    """the six column orders of one near-equal table (which of the two edges is enumerated first depends on the
+    order); for d > 3 weakly dependent shuffled-rank columns are appended."""
+    import itertools
+    a, b, c = near_equal_columns(rng)
+    rs = np.random.RandomState(rng.getrandbits(32))
+    extra = [rs.permutation(len(a)).astype(float) for _ in range(max(0, d - 3))]
+    out = []
+    for order in itertools.permutations((a, b, c)):
+        cols = list(order) + extra
+        out.append(pd.DataFrame(np.column_stack(cols), columns=[f'c{i}' for i in range(len(cols))]))
+    return out
+
+
 # ----------------------------------------------------------------------------- generators
 def gen_table(rng, d, mode):
+    if mode == 'neareq':
+        if d >= 3:
+            return rng.choice(near_equal_tables(rng, d))
+        mode = 'plain'
     rs = np.random.RandomState(rng.getrandbits(32))
     n = rng.randint(60, 120)
     A = rs.randn(d, d)
@@ -537,6 +648,7 @@ def run(ctx, lean):
         if bad[name] is None:
             bad[name] = detail
 
+    near_eq = None
     for it in range(n_tables):
         d = pick_d(rng, deep)
         mode = rng.choices(MODES, MODE_W)[0]
@@ -544,7 +656,10 @@ def run(ctx, lean):
             d, mode = 2 + it % 4, 'zero'
         elif it < 14:                   # every run: tie densities for which tau-a and tau-b MSTs differ
             d, mode = 3 + it % 3, 'ties'
-        X = gen_table(rng, d, mode)
+        elif it < 20:                   # every run: the six column orders of a table with two |tau| 1e-9..6e-8 apart
+            d, mode = 3, 'neareq'
+            near_eq = near_eq or near_equal_tables(rng, 3)
+        X = near_eq[it - 14] if 14 <= it < 20 else gen_table(rng, d, mode)
         tau0 = tau_b_matrix(X.to_numpy())       # independent reference (scipy.stats.kendalltau, tau-b)
         if any(tau0[0, j] == 0.0 for j in range(1, d)):
             ctx.count('table with tau(col 0, col j) == 0 exactly')
@@ -1030,6 +1145,12 @@ def search(ctx, deep):
                     counts['call-form fits'] = counts.get('call-form fits', 0) + 1
                     check_real(ctx, X, vt, t, counts, form=form)
             check_real(ctx, X, vt, DEFAULT_TRUNCATED, counts, form='default')
+    # two competing |tau| values 1e-9..6e-8 apart, every column order (MST clause with weights in double precision)
+    for rep_ in range(1 if not deep else 6):
+        for X in near_equal_tables(rng, 3 if rep_ % 2 == 0 else 4):
+            for vt in (TYPES if rep_ == 0 else ('regular',)):
+                counts['near-equal-tau fits'] = counts.get('near-equal-tau fits', 0) + 1
+                check_real(ctx, X, vt, rng.randint(1, X.shape[1]), counts)
     ctx.support = dict(counts, deep=deep)
 
 
